@@ -937,6 +937,23 @@ const SIZE_BOUNDARY: &str = "RemoveBlock@exact-size";
 /// pseudo message name of the dispatch-enum structure fixed case
 const DISPATCH_STRUCTURE: &str = "Message@dispatch-structure";
 
+/// A transport that takes at most `chunk` bytes per write call.
+struct ShortWriter {
+    buf: Vec<u8>,
+    chunk: usize,
+}
+
+impl vls_protocol::serde_bolt::io::Write for ShortWriter {
+    fn write(&mut self, b: &[u8]) -> vls_protocol::serde_bolt::io::Result<usize> {
+        let n = b.len().min(self.chunk);
+        self.buf.extend_from_slice(&b[..n]);
+        Ok(n)
+    }
+    fn flush(&mut self) -> vls_protocol::serde_bolt::io::Result<()> {
+        Ok(())
+    }
+}
+
 pub struct C19;
 
 impl C19 {
@@ -997,6 +1014,45 @@ impl C19 {
             Err(p) =>
                 return ctx.report(st, Violation::new(format!("C19:{}:reencode-panic", name), format!("as_vec of the decoded message panicked: {}", p))),
         };
+
+        // the framed path (msgs::write_vec / msgs::read, used over sockets and serial links): the
+        // transport may take fewer bytes per write call than it is offered (std::io::Write allows
+        // it; a USB serial driver takes one packet).  What arrives must decode to the same bytes.
+        for chunk in [usize::MAX, 4096, 64, 1] {
+            if chunk != usize::MAX && bytes.len() + 4 <= chunk {
+                continue;
+            }
+            let mut t = ShortWriter { buf: vec![], chunk };
+            let wr = guard(|| vls_protocol::msgs::write_vec(&mut t, bytes.to_vec()));
+            let framed_ok = match wr {
+                Ok(Ok(())) => true,
+                Ok(Err(_)) => false, // the encoder reported the failure: nothing was claimed to be sent
+                Err(p) => return ctx.report(st, Violation::new(format!("C19:{}:framed-write-panic", name), format!("write_vec panicked: {}", p))),
+            };
+            if !framed_ok {
+                st.class("framed:write-error-reported");
+                continue;
+            }
+            let mut cur = &t.buf[..];
+            let back = guard(|| vls_protocol::msgs::read(&mut cur));
+            let fb = match back {
+                Ok(Ok(m3)) => guard(|| m3.inner().as_vec()).unwrap_or_default(),
+                Ok(Err(err)) => {
+                    return ctx.report(st, Violation::new(
+                        format!("C19:{}:framed-roundtrip-failed", name),
+                        format!("msgs::read of what msgs::write_vec reported as sent (transport taking {} bytes per write, {} of {} bytes arrived) = Err({:?})", chunk, t.buf.len(), bytes.len() + 4, err),
+                    ))
+                }
+                Err(p) => return ctx.report(st, Violation::new(format!("C19:{}:framed-read-panic", name), format!("msgs::read panicked: {}", p))),
+            };
+            if fb != b2 || !cur.is_empty() {
+                return ctx.report(st, Violation::new(
+                    format!("C19:{}:framed-roundtrip-differs", name),
+                    format!("the framed path (transport taking {} bytes per write) delivers another message: {}", chunk, first_diff(&fb, &b2)),
+                ));
+            }
+            st.class(if chunk == usize::MAX { "framed:whole" } else { "framed:short-writes" });
+        }
 
         // the typed entry point used by the node side for replies
         let typed = guard(|| gen::typed_roundtrip(idx, bytes.to_vec()));
